@@ -1,13 +1,13 @@
 // Counterexample(s) found by Kani/CBMC for property C07, harness c07_finalize_ratio (budget::verif::c07_finalize_ratio)
-// failed checks: [{"desc": "attempt to multiply with overflow", "file": "src/budget.rs", "line": 524, "fn": "budget::BudgetEnforcer::finalize"}]
+// failed checks: [{"desc": "\"ratio breach missed\"", "file": "/verif/harness/wb/h_budget_wb.rs", "line": 565, "fn": "budget::verif::c07_finalize_ratio"}]
 // replay: /verif/bin/check --replay /verif/replays/C07-c07_finalize_ratio.rs
 //HARNESS c07_finalize_ratio
 /// Test generated for harness `budget::verif::c07_finalize_ratio` 
 ///
-/// Check for `assertion`: "attempt to multiply with overflow"
+/// Check for `assertion`: ""ratio breach missed""
 
 #[test]
-fn kani_concrete_playback_c07_finalize_ratio_2115175178776991715() {
+fn kani_concrete_playback_c07_finalize_ratio_6700360090014998804() {
     let concrete_vals: Vec<Vec<u8>> = vec![
         // 18446744073709551615ul
         vec![255, 255, 255, 255, 255, 255, 255, 255],
@@ -27,14 +27,14 @@ fn kani_concrete_playback_c07_finalize_ratio_2115175178776991715() {
         vec![255, 255, 255, 255, 255, 255, 255, 255],
         // 1
         vec![1],
-        // 1657324662872342522ul
-        vec![250, 255, 255, 255, 255, 255, 255, 22],
-        // 18446744073709551615ul
-        vec![255, 255, 255, 255, 255, 255, 255, 255],
+        // 1152921504573292493ul
+        vec![205, 255, 255, 253, 255, 255, 255, 15],
+        // 1729382256910270439ul
+        vec![231, 255, 255, 255, 255, 255, 255, 23],
         // 0ul
         vec![0, 0, 0, 0, 0, 0, 0, 0],
-        // 4611686018427387902ul
-        vec![254, 255, 255, 255, 255, 255, 255, 63],
+        // 3458764513820540879ul
+        vec![207, 255, 255, 255, 255, 255, 255, 47],
         // 0ul
         vec![0, 0, 0, 0, 0, 0, 0, 0],
         // 0ul
